@@ -27,6 +27,7 @@ import (
 	"strconv"
 	"strings"
 	"sync"
+	"sync/atomic"
 	"testing"
 	"time"
 
@@ -38,6 +39,7 @@ import (
 	"google.golang.org/grpc/status"
 
 	"github.com/temporalio/s2s-proxy/endtoendtest/testservices"
+	"github.com/temporalio/s2s-proxy/internal/vhook"
 	"github.com/temporalio/s2s-proxy/metrics"
 	"github.com/temporalio/s2s-proxy/transport/grpcutil"
 	"github.com/temporalio/s2s-proxy/transport/mux/session"
@@ -51,6 +53,7 @@ type vccCmd struct {
 	How  string `json:"how,omitempty"`
 	W    bool   `json:"w,omitempty"`    // Add: the peer of the new session never accepts streams ("wedged")
 	Hold bool   `json:"hold,omitempty"` // Add: park the listener notification of this AddConnection until AddRelease
+	S    bool   `json:"s,omitempty"`    // Add: "sick" - the session's first health ping fails (State() = Error), it stays alive
 }
 type vccSched struct {
 	ID    string   `json:"id"`
@@ -70,6 +73,36 @@ type vccSess struct {
 	key      string
 	wedged   bool
 	prefill  net.Conn // the stream that fills a wedged session's accept backlog
+	sick     bool
+	cfg      *yamux.Config // the pool side's yamux config (its ConnectionWriteTimeout is read at every call)
+	peerConn *vccPeerConn
+}
+
+// vccPeerConn is the peer's end of the pipe. While ackBudget >= 0 the peer answers only that many more yamux pings: the
+// frame carrying a ping answer is swallowed (everything else flows), so a ping of the pool side runs into its timeout
+// without the session being closed - a peer that stalls for one health check and then recovers.
+type vccPeerConn struct {
+	net.Conn
+	ackBudget atomic.Int64 // -1 = answer everything
+}
+
+func (c *vccPeerConn) Write(b []byte) (int, error) {
+	// yamux writes every 12-byte header with its own Write: version, type, flags(2), stream id(4), length(4)
+	if len(b) == 12 && b[1] == 2 /* typePing */ && b[3]&0x2 != 0 /* flagACK */ {
+		for {
+			n := c.ackBudget.Load()
+			if n < 0 {
+				break
+			}
+			if n == 0 {
+				return len(b), nil // swallowed
+			}
+			if c.ackBudget.CompareAndSwap(n, n-1) {
+				break
+			}
+		}
+	}
+	return c.Conn.Write(b)
 }
 
 type vccRpc struct {
@@ -115,6 +148,8 @@ type vccHarness struct {
 	holdArrived chan struct{}
 	holdCh      chan struct{}
 	holdID      int
+	holdHandle  session.ManagedMuxSession
+	sickPending *vccSess
 	holdKilled  []int
 	underLock   bool
 
@@ -174,6 +209,7 @@ func (h *vccHarness) sessionFn(conn net.Conn) (*yamux.Session, error) {
 	}
 	s, err := yamux.Client(conn, cfg) // as establisher.go
 	if err == nil && mine != nil {
+		mine.cfg = cfg
 		if mine.wedged {
 			// the peer never accepts: this stream is never acknowledged and fills the backlog, every further Open blocks
 			// until the session closes. Pings are still answered, so the session is healthy and stays registered.
@@ -219,6 +255,7 @@ func (h *vccHarness) gate(gen int) OnConnectionListUpdate {
 			h.mu.Unlock()
 			return
 		}
+		h.holdHandle = m[h.holdKey]
 		h.holdParked = true
 		ch := h.holdCh
 		close(h.holdArrived)
@@ -477,10 +514,25 @@ func (h *vccHarness) background(stop chan struct{}, done chan struct{}) {
 	}
 }
 
+// hook (vhook, build tag verif): right before the provider hands a pinged session to the manager. For a "sick" add the
+// pool side's ConnectionWriteTimeout is cut here, so that the health ping NewManagedMuxSession starts next - whose
+// answer the peer swallows - fails after 20ms instead of 10s. Nothing else uses the session in that window (its
+// publication to the client connection is held by the gate listener); the timeout is restored before the release.
+func (h *vccHarness) hook(point string, kv ...any) {
+	if point != "mux.provider.beforeAdd" || len(kv) < 2 || kv[1] != "vcc" {
+		return
+	}
+	h.mu.Lock()
+	if vs := h.sickPending; vs != nil && vs.cfg != nil {
+		vs.cfg.ConnectionWriteTimeout = 20 * time.Millisecond
+	}
+	h.mu.Unlock()
+}
+
 func (h *vccHarness) releaseHold() {
 	h.mu.Lock()
 	ch := h.holdCh
-	h.holdCh, h.holdKey, h.holdArmed, h.holdParked = nil, "", false, false
+	h.holdCh, h.holdKey, h.holdArmed, h.holdParked, h.holdHandle, h.sickPending = nil, "", false, false, nil, nil
 	h.mu.Unlock()
 	if ch != nil {
 		close(ch)
@@ -496,19 +548,25 @@ func (h *vccHarness) exec(cmd vccCmd, idx int) bool {
 		l, p := net.Pipe()
 		h.mu.Lock()
 		h.nextID++
-		vs := &vccSess{id: h.nextID, local: l, peer: p, wedged: cmd.W}
+		pw := &vccPeerConn{Conn: p}
+		pw.ackBudget.Store(-1)
+		vs := &vccSess{id: h.nextID, local: l, peer: p, wedged: cmd.W, sick: cmd.S, peerConn: pw}
 		h.sess[vs.id] = vs
 		h.parked = false
-		if cmd.Hold {
+		if cmd.S {
+			pw.ackBudget.Store(1) // the provider's ping is answered, the health ping that follows is not
+			h.sickPending = vs
+		}
+		if cmd.Hold || cmd.S {
 			h.holdArmed, h.holdKey, h.holdParked, h.holdID, h.holdKilled = true, "", false, vs.id, nil
 			h.holdArrived, h.holdCh = make(chan struct{}), make(chan struct{})
 		}
-		h.emit(map[string]interface{}{"ev": "Cmd", "a": "Add", "k": vs.id, "w": cmd.W, "hold": cmd.Hold})
+		h.emit(map[string]interface{}{"ev": "Cmd", "a": "Add", "k": vs.id, "w": cmd.W, "hold": cmd.Hold, "s": cmd.S})
 		ch := h.dialCh
 		arrived := h.holdArrived
 		h.mu.Unlock()
 		var err error
-		vs.peerSess, err = yamux.Server(p, vccYamuxCfg())
+		vs.peerSess, err = yamux.Server(pw, vccYamuxCfg())
 		if err != nil {
 			panic(err)
 		}
@@ -522,6 +580,37 @@ func (h *vccHarness) exec(cmd vccCmd, idx int) bool {
 		case ch <- l:
 		case <-time.After(h.wait):
 			return false
+		}
+		if cmd.S {
+			// the publication of this session is parked in the gate listener; its health check is running
+			select {
+			case <-arrived:
+			case <-time.After(h.wait):
+				h.releaseHold()
+				h.quiet("hold")
+				return true
+			}
+			h.mu.Lock()
+			hd := h.holdHandle
+			h.mu.Unlock()
+			sick := hd != nil && h.poll(func() bool { return hd.State().State == session.Error })
+			// the peer recovers: pings are answered again, the write timeout is the usual one
+			pw.ackBudget.Store(-1)
+			vs.cfg.ConnectionWriteTimeout = vccYamuxCfg().ConnectionWriteTimeout
+			st := -1
+			if hd != nil {
+				st = int(hd.State().State)
+			}
+			h.log(map[string]interface{}{"ev": "Sick", "k": vs.id, "state": st, "closed": vs.sess.IsClosed()})
+			h.releaseHold()
+			if !sick || vs.sess.IsClosed() {
+				return false // the harness did not get the session into that state
+			}
+			if !h.poll(func() bool { h.mu.Lock(); defer h.mu.Unlock(); return h.tableHas(vs.id) && h.updates >= h.begun }) {
+				h.quiet("add")
+				return true
+			}
+			break
 		}
 		if cmd.Hold {
 			// the notification of this AddConnection is parked in the gate listener
@@ -817,6 +906,8 @@ func TestVerifClientConnSchedules(t *testing.T) {
 	w := bufio.NewWriterSize(outf, 1<<20)
 	defer w.Flush()
 	h := &vccHarness{enc: json.NewEncoder(w), wait: 10 * time.Second}
+	vhook.Set(h.hook)
+	defer vhook.Set(nil)
 	if d, err := time.ParseDuration(os.Getenv("VERIF_WAIT")); err == nil && d > 0 {
 		h.wait = d
 	}
